@@ -12,7 +12,7 @@ def generate_census19():
     binp = os.path.join(V.BUILD, "census19")
     tmp = binp + ".%d" % os.getpid()
     # file-list build: only these two files, independent of the rest of harness/cc
-    rc, out, err = V.run(["go", "build", "-tags", "census19main", "-o", tmp, "census19.go", "census19_main.go"], cwd=src, env=V.GOENV, timeout=600)
+    rc, out, err = V.run(["go", "build", "-tags", "census19main", "-o", tmp, "census19.go", "census19_imports.go", "census19_main.go"], cwd=src, env=V.GOENV, timeout=600)
     if rc != 0: return False, "census extractor does not build: " + (out + err)[-800:]
     os.replace(tmp, binp)
     rc, out, err = V.run([binp, V.REPO, os.path.join(V.VERIF, "known", "c19_census_expected.json"),
@@ -31,10 +31,10 @@ PROP = {
     # n = number of random programs; each is compiled for 22 (target, options) configurations,
     # R = 4 (quick) / 12 (thorough) separate compiler processes each + 1 in-process compile
     "suites": [("cc", "c19", {"quick": 3, "thorough": 12})],
-    "rule": "A program = 14-19 IDL files in sub-directories (root with >= 12 includes, scopes, services, structs, enums, namespaces; one more many-entries file; typedefs, constants incl. map constants, unions, exceptions, cross-file service inheritance, vendored includes, annotations, docstrings; distinct file base names), compiled by the real compiler binary for each of 22 (target, option subset) configurations of go/java/dart/py/py:asyncio/py:tornado/json/html (dated java generated_annotations excluded), R times as separate processes under 6 layouts (cwd, relative/absolute file argument, copy of the sources at another absolute path, relative/absolute/bare -out, -out inside a Go module) plus once in-process (shared global state across programs and targets); the oracle compares the set of emitted relative paths and the sha256 of every file. Correspondence cases: c19ord = generation order from the -v log vs the model's traversal; c19mods = module order of html index.html vs the model; c19site = one per census site (source now vs committed classification).",
+    "rule": "Big programs = 14-19 IDL files in sub-directories (root with >= 12 includes, scopes, services, structs, enums, namespaces; one more many-entries file; typedefs, constants incl. map constants, unions, exceptions, cross-file service inheritance, vendored includes whose vendor path does not end in the package name, annotations, docstrings; distinct file base names) compiled for 22 base (target, options) configurations; small programs (4-5 files) compiled for the OPTION SWEEP = for every target of the compiler's own option table (generator.Languages, read at run time) no option, every option alone and every pair of options (98 configurations now; dated java generated_annotations excluded). Every compilation is a separate process of the real compiler binary with a FRESH -out, from 8 layouts: neutral cwd without go.mod; ADVERSARIAL cwd inside a scratch Go module that declares look-alike packages for every package name (and exported symbol) the first run's emitted Go imports, refers to or declares, plus a static list (logrus, thrift, frugal, context, fmt, bytes, errors, sync, time, ...); cwd = the -out directory; cwd = copy of the sources at another absolute path with relative file/-out; cwd inside a GOPATH-like tree with the same look-alike packages and a vendor directory; cwd inside the frugal repository; -out inside a Go module; the adversarial module root (quick: big programs layouts 0-3 + one in-process compile, sweep: neutral + adversarial + two more in rotation; thorough: all). The oracle compares the set of emitted relative paths and the sha256 of every file. Correspondence cases: c19ord = generation order from the -v log vs the model's traversal; c19mods = module order of html index.html vs the model; c19site = one per census site (source now vs committed classification).",
     "trusted": ["Modelled, not verified: Go's map iteration as 'any permutation', sort.Sort as 'any sorted permutation', filepath.Abs/Rel/Join on lists of segments; text/template, encoding/json, yaml.v2, goimports and the text produced inside each generator function are NOT modelled (hash comparison only)",
-                "the census extractor (harness/cc/census19.go, go/ast only; its map-typedness inference was cross-checked once against go/types: 7 of 7 map ranges)"],
-    "level_text": "Partial — named. Theorems (Lean 4, no bound on sizes) that every MODELLED pattern through which run-to-run or location variation could reach the output is insensitive to it: sorted permutations of a list with distinct keys are unique, so an unstable sort of any iteration order of a map is a function of the set (c19_sorted_perm_unique, c19_sort_of_any_order, c19_ordered_includes_perm); keys-then-sort (c19_keys_sort), commutative insertion (c19_insert_commutes), lookup (c19_lookup_order_independent) are permutation-invariant; the modelled traversal generateFrugalRec/OrderedIncludes/ParsedIncludes yields the same file sequence for all permutations and generates every file once (c19_order_independent, c19_generated_once); the modelled output-path computation is independent of source root and cwd and equivariant in -out, incl. python's Rel(Abs,Abs) (c19_location_independent). c19_census_all_classified (decide, on a table regenerated from /repo on every check) ties 'these are all the sites' (map ranges, sorts, clock/cwd/env reads, marshalled maps, template ranges under compiler/** and main.go) to the committed classification. The html module list is only proved for distinct module names (c19_html_modules_partial) and the counterexample for equal names is a recorded known finding.",
+                "the census extractor (harness/cc/census19.go, go/ast only; its map-typedness inference was cross-checked once against go/types: 7 of 7 map ranges; census19_imports.go pairs every `var _ = pkg.Sym` line and every package-qualified text of the Go generator with the import lines the generator itself emits and the option guards they are under)"],
+    "level_text": "Partial — named. Theorems (Lean 4, no bound on sizes) that every MODELLED pattern through which run-to-run or location variation could reach the output is insensitive to it: sorted permutations of a list with distinct keys are unique, so an unstable sort of any iteration order of a map is a function of the set (c19_sorted_perm_unique, c19_sort_of_any_order, c19_ordered_includes_perm); keys-then-sort (c19_keys_sort), commutative insertion (c19_insert_commutes), lookup (c19_lookup_order_independent) are permutation-invariant; the modelled traversal generateFrugalRec/OrderedIncludes/ParsedIncludes yields the same file sequence for all permutations and generates every file once (c19_order_independent, c19_generated_once); the modelled output-path computation is independent of source root and cwd and equivariant in -out, incl. python's Rel(Abs,Abs) (c19_location_independent). c19_census_all_classified (decide, on a table regenerated from /repo on every check) ties 'these are all the sites' (map ranges, sorts, clock/cwd/env reads, marshalled maps, template ranges under compiler/** and main.go; for the Go generator, whose output is post-processed by goimports, every emitted import line with its option guard and every package the emitted text refers to — an import left for goimports to add is a location-dependent site and cannot be classified) to the committed classification. The html module list is only proved for distinct module names (c19_html_modules_partial) and the counterexample for equal names is a recorded known finding.",
     "level_note": "A functional model is deterministic by construction, so no theorem here says 'the compiler is deterministic'. What is proved is order- and location-INSENSITIVITY OF THE MODELLED PATTERNS; the census ties 'these are all the sites of variation' to the source (a new/changed/vanished site breaks c19_census_all_classified and shows as a disagreement naming the site); the text generated inside each site, the libraries that serialise maps (encoding/json, yaml.v2, text/template) and goimports are covered ONLY by the sha256 comparison of the real compiler's outputs across repetitions / cwd / source location / -out on the generated programs. Trusted: Lean kernel, the hand-written model, the census extractor, the harness.",
     "assumptions": ["same compiler binary, same options, same environment variables other than the working directory (GOPATH/GOFLAGS could influence goimports; not varied)",
                     "java generated_annotations values other than absent/suppress/undated embed the date and are excluded, as the property states",
